@@ -93,6 +93,14 @@ reg("C09", "fault_enumeration",
     BASE_NOTE + "CPython reference counting is deterministic, so explicit del/gc.collect() steps own the collection schedule.",
     "DESIGN.md 3/C09")
 
+reg("C10", "exploration",
+    "Hypothesis class specifications x multi-instance histories vs a per-instance model with private deep copies of the declared defaults; isolation invariant over all other instances, the class and a new instance after every step",
+    "Generated classes (14 default kinds incl. container copies, factories, _name_default, Tuple/Union/Dict with container "
+    "members, subclass overrides) and histories over 2-5 instances (read, mutate default containers, assign, handlers, "
+    "add/remove_trait, trait queries); after every step every other instance, class-level definitions and a brand-new "
+    "instance are compared with their model and no container may be shared. Sampling.",
+    BASE_NOTE, "DESIGN.md 3/C10")
+
 
 def main():
     props = [json.loads(l) for l in open(os.path.join(ROOT, "properties.jsonl"))]
